@@ -2,9 +2,11 @@
 
    m-glue-recv <nb> <r1> <ready> <r2>   raw read outcomes: d0 (b""), d1 (bytes), T, W, A, S1, S0, O
    m-glue-send <nb> <r1> <ready> <r2>   raw write outcomes: a<n>, T, E, W, A, N0, N1, O
+   m-sendloop <nb> <datahex> <r1,ready,r2> ...   the write loop of send_frame over a list of worlds
 -/
 import WS.Driver.Util
 import WS.Model.SocketGlue
+import WS.Model.SendGlue
 namespace WS.Driver.Glue
 open WS WS.Model.Glue
 
@@ -40,6 +42,23 @@ def ops : List String → Option String
       some (match send (nb == "1") a (rd == "1") b with
         | .ok (some n) => s!"ok:{n}" | .ok none => "ok:none" | .timeout => "TIMEOUT" | .closed => "CLOSED" | .own r => "own:" ++ sOut r)
     | _, _ => some "bad-raw"
+  | "m-sendloop" :: nb :: dataHex :: ws =>
+    match WS.Driver.parseBytes dataHex with
+    | none => some "bad-hex"
+    | some data =>
+      let parsed := ws.map fun (w : String) => match w.splitOn "," with
+        | [a, rd, b] => (match parseS a, parseS b with
+            | some x, some y => some ({ r1 := x, ready := rd == "1", r2 := y } : WS.Model.SendGlue.World)
+            | _, _ => none)
+        | _ => none
+      if parsed.any Option.isNone then some "bad-raw" else
+      let worlds := parsed.filterMap id
+      let (o, wire) := WS.Model.SendGlue.sendLoop (nb == "1") worlds data []
+      let os := match o with
+        | .done => "done" | .cut => "cut"
+        | .raised .timeout => "TIMEOUT" | .raised .closed => "CLOSED" | .raised (.own r) => "own:" ++ sOut r
+        | .raised (.ok _) => "impossible"
+      some s!"{os} wire={WS.Driver.bytesOut wire} calls={WS.Model.SendGlue.calls (nb == "1") worlds data}"
   | _ => none
 
 end WS.Driver.Glue
